@@ -81,6 +81,10 @@ def run_property(pid, tier, seed, replay=None):
                 notes.append(f"coq_case failed: {type(e).__name__}: {e}")
         bits, clog = core.run_coq_cases(pid, mod.COQ_HEADER, mod.COQ_CHECK, lits,
                                         shard_bytes=getattr(mod, "SHARD_BYTES", 300_000))
+        tlog = [l for l in clog.split("\n") if l.startswith("TIMEOUT")]
+        clog = "\n".join(l for l in clog.split("\n") if l and not l.startswith("TIMEOUT"))
+        if tlog:
+            notes.append("correspondence: " + "; ".join(tlog))
         if clog:
             P.append("correspondence evaluation failed: " + clog[:400])
         labels = mod.COQ_LABELS
